@@ -3,7 +3,7 @@
    picks the codec the client announced. *)
 From Coq Require Import ZArith List Bool.
 From TD Require Import Lib.GoSem Gen.CodecConsts Model.Codec Proof.CodecRT.
-From TD Require Model.Obfs2.
+From TD Require Model.Obfs2 Proof.Obfs2.
 Import ListNotations.
 Open Scope Z_scope.
 
@@ -21,4 +21,18 @@ Proof.
   - change (Obfs2.replay_tag (obf_tag Abridged)) with (header Abridged). apply detect_tagged; discriminate.
   - change (Obfs2.replay_tag (obf_tag Intermediate)) with (header Intermediate). apply detect_tagged; discriminate.
   - change (Obfs2.replay_tag (obf_tag Padded)) with (header Padded). apply detect_tagged; discriminate.
+Qed.
+
+(* composed with the handshake: a client that announces codec c (protocol := ObfuscatedTag of c)
+   is served by a connection on which detectCodec picks c *)
+Lemma obf_session_detect ks sha256 fuel rnd c dc secret hdr cep rest wire s :
+  c <> Full ->
+  Obfs2.client_handshake ks sha256 fuel rnd (obf_tag c) dc secret = Ok (hdr, cep, rest) ->
+  exists p d sep, Obfs2.server_accept ks sha256 (hdr ++ wire) secret = Ok ((p, d), sep, wire) /\
+                  detect (Obfs2.replay_tag p ++ s) = Ok (c, s).
+Proof.
+  intros Hc H.
+  assert (length (obf_tag c) = 4%nat) as Hl by (destruct c; reflexivity || contradiction).
+  destruct (Proof.Obfs2.handshake_accept ks sha256 _ _ _ _ _ _ _ _ wire Hl H) as (Ha & _).
+  do 3 eexists. split; [exact Ha|]. apply obf_listener_detect; exact Hc.
 Qed.
